@@ -510,6 +510,8 @@ func runC16(args []string) {
 		emit(uint64(k), &c16Case{path: path, css: 100, pt: c16Gen(200), mut: c16Mut{kind: "trunc", a: 4 + hl100 + 40}})
 		emit(uint64(k), &c16Case{path: path, css: 100, pt: c16Gen(200), mut: c16Mut{kind: "trunc", a: 0}})
 	}
+	// the unauthenticated segmentSize header field: a smaller size shrinks the plaintext length the reader computes
+	emit(uint64(k), &c16Case{path: "seek", css: 128, pt: c16Gen(200), mut: c16Mut{kind: "hdr-segsize", a: 57}, offs: []int{0, 150, 187, 200}})
 	small := []int{64, 100, 57}
 	if f.Tier == "thorough" {
 		small = append(small, 4096, 333)
